@@ -30,7 +30,7 @@ func TestMain(m *testing.M) { hx.Main(m) }
 // ---- upstream servers shared by all proxied connections ----
 
 func serve(t hx.TB, echo bool) net.Listener {
-	ln, err := net.Listen("tcp", "127.0.0.1:0")
+	ln, err := hx.Listen("tcp", "127.0.0.1:0")
 	if err != nil {
 		t.Fatalf("listen: %v", err)
 	}
@@ -225,7 +225,7 @@ func runBatch(t hx.TB, srv *layer4.Server, ln net.Listener, plans []connPlan) {
 		go func() {
 			defer wg.Done()
 			time.Sleep(cp.Jitter)
-			c, err := net.Dial("tcp", ln.Addr().String())
+			c, err := hx.Dial("tcp", ln.Addr().String())
 			if err != nil {
 				results[i].err = err.Error()
 				return
@@ -372,7 +372,7 @@ func describe(plans []connPlan) string {
 func TestConcurrentConnections(t *testing.T) {
 	srv, cleanup := buildServer(t)
 	defer cleanup()
-	ln, err := net.Listen("tcp", "127.0.0.1:0")
+	ln, err := hx.Listen("tcp", "127.0.0.1:0")
 	if err != nil {
 		t.Fatal(err)
 	}
@@ -396,7 +396,7 @@ func TestPerConnectionLimitsAreIndependent(t *testing.T) {
 	if err != nil {
 		t.Fatal(err)
 	}
-	ln, err := net.Listen("tcp", "127.0.0.1:0")
+	ln, err := hx.Listen("tcp", "127.0.0.1:0")
 	if err != nil {
 		t.Fatal(err)
 	}
@@ -411,7 +411,7 @@ func TestPerConnectionLimitsAreIndependent(t *testing.T) {
 			wg.Add(1)
 			go func() {
 				defer wg.Done()
-				c, err := net.Dial("tcp", ln.Addr().String())
+				c, err := hx.Dial("tcp", ln.Addr().String())
 				if err != nil {
 					bad = err.Error()
 					return
